@@ -3,6 +3,8 @@ package main
 import (
 	"fmt"
 	"go/types"
+	"math/big"
+	"sort"
 	"strings"
 
 	"golang.org/x/tools/go/ssa"
@@ -443,4 +445,136 @@ func withZeroAtoms(f *Facts) *Facts {
 		}
 	}
 	return out
+}
+
+// checkI0: the shape engines read integers mathematically and erase integer->integer conversions. That is sound
+// only if no such conversion can change the value. Every conversion that cannot represent all values of its
+// source type (narrower target, or a sign change) is therefore an obligation, unless it is part of the sample
+// arithmetic (operand derived from a sample, or inside a conversion kernel / BitDepth / Scale, which E4 and C16
+// evaluate with machine semantics for every depth).
+var shapeQuantified = map[string]bool{"C01": true, "C02": true, "C03": true, "C04": true, "C05": true, "C13": true, "C14": true, "C15": true, "C20": true}
+
+func checkI0(c *Checker, rule string) {
+	// the one value-changing conversion confirmed by hand is BitDepth(unsafe.Sizeof(v)*8) in getBitDepth (reached from
+	// Alloc): it is the positive control wherever Alloc is in scope
+	floor := 0
+	if fn := c.W.Fn("Alloc"); fn != nil {
+		if _, ok := c.sums[fn]; ok || shapeQuantified[c.Prop] {
+			floor = 1
+		}
+	}
+	c.rule(rule, "premise of the shape arithmetic: every integer->integer conversion outside the sample kernels either cannot change the value (same width and signedness, or widening) or has an operand implied to lie in the target type's range", floor)
+	kern := map[string]bool{}
+	for _, n := range conversionNames {
+		kern[n] = true
+	}
+	inKernel := func(fn *ssa.Function) bool {
+		for f := fn; f != nil; f = f.Parent() {
+			n := f.Name()
+			if o := f.Origin(); o != nil {
+				n = o.Name()
+			}
+			if kern[n] || n == "Scale" {
+				return true
+			}
+			if f.Signature.Recv() != nil {
+				rt := f.Signature.Recv().Type()
+				if p, ok := rt.(*types.Pointer); ok {
+					rt = p.Elem()
+				}
+				if nt, ok := rt.(*types.Named); ok && (nt.Obj().Name() == "BitDepth" || nt.Obj().Name() == "Frequency") {
+					return true
+				}
+			}
+		}
+		return false
+	}
+	seen := map[string]bool{}
+	nSites := 0
+	// scope: the functions this property's own rules summarised, plus the constructor for the properties that
+	// quantify over buffers of every shape (a shape lost in Alloc falsifies them for the buffers it produces)
+	var fns []*ssa.Function
+	for fn := range c.sums {
+		fns = append(fns, fn)
+	}
+	if shapeQuantified[c.Prop] {
+		if fn := c.W.Fn("Alloc"); fn != nil {
+			if _, ok := c.sums[fn]; !ok {
+				fns = append(fns, fn)
+			}
+		}
+	}
+	sort.Slice(fns, func(i, j int) bool { return fns[i].String() < fns[j].String() })
+	for _, fn := range fns {
+		s := c.Summary(fn)
+		for _, o := range s.Outcomes {
+			for _, e := range effectsOf(o, ENarrow) {
+				if inKernel(e.Fn) || e.Idx == nil {
+					continue
+				}
+				if e.Idx.contains(func(x *Term) bool { return x.Op == OpElem }) {
+					continue // a sample being converted between element types: the conversion is the operation itself
+				}
+				inst := shortFn(c.W, e.Fn) + "/" + e.Note + " of " + pretty(canon(e.Idx))
+				if seen[inst] {
+					continue
+				}
+				nSites++
+				to := kindOf(e.Typ)
+				lo, hi := to.minMax()
+				f := e.Facts.clone()
+				// sizes of the element types
+				e.Idx.walk(func(x *Term) bool {
+					if x.Op == OpAtom && strings.HasPrefix(x.Name, "sizeof(") {
+						f.add(Cond{Kind: CGE0, P: polyAtom(x).AddInt(-1)})
+						f.add(Cond{Kind: CGE0, P: polyConst(big.NewInt(16)).Sub(polyAtom(x))})
+					}
+					return true
+				})
+				p := normInt(e.Idx)
+				inRange := f.impliesGE0(p.Sub(polyConst(lo))) && f.impliesGE0(polyConst(hi).Sub(p))
+				if !inRange {
+					// linear in element sizes (1..16 bytes): evaluate the extremes
+					if mn, mx, ok := sizeofRange(p); ok && mn.Cmp(lo) >= 0 && mx.Cmp(hi) <= 0 {
+						inRange = true
+					}
+				}
+				if inRange {
+					seen[inst] = true
+					c.proved(rule, inst, c.effPos(e), fmt.Sprintf("operand implied within [%s, %s]", lo, hi))
+				} else {
+					seen[inst] = true
+					c.refuted(rule, inst, c.effPos(e), fmt.Sprintf("%s: the operand %s is not implied to lie in [%s, %s], so the stored value can differ from the one the shape arithmetic assumes (path: %s)", e.Note, pretty(canon(e.Idx)), lo, hi, factsBrief(e.Facts)),
+						"a value outside the target range, e.g. "+new(big.Int).Add(hi, big.NewInt(1)).String())
+				}
+			}
+		}
+	}
+	c.Extra[rule+" value-changing integer conversions examined"] = nSites
+}
+
+// sizeofRange bounds a polynomial that is linear in sizeof(T) atoms (each between 1 and 16).
+func sizeofRange(p *Poly) (*big.Int, *big.Int, bool) {
+	mn, mx := new(big.Int), new(big.Int)
+	for _, mo := range p.m {
+		switch len(mo.factors) {
+		case 0:
+			mn.Add(mn, mo.coef)
+			mx.Add(mx, mo.coef)
+		case 1:
+			a := mo.factors[0]
+			if a.Op != OpAtom || !strings.HasPrefix(a.Name, "sizeof(") {
+				return nil, nil, false
+			}
+			lo, hi := new(big.Int).Set(mo.coef), new(big.Int).Mul(mo.coef, big.NewInt(16))
+			if lo.Cmp(hi) > 0 {
+				lo, hi = hi, lo
+			}
+			mn.Add(mn, lo)
+			mx.Add(mx, hi)
+		default:
+			return nil, nil, false
+		}
+	}
+	return mn, mx, true
 }
